@@ -182,7 +182,10 @@ impl<L: Language, N: Analysis<L>> EGraph<L, N> {
         let mut i = self.find_applied_id(i_orig);
         // i.m :: slots(i) -> X
         // i_orig.m :: slots(i_orig) -> X
-        if !i.slots().is_subset(&enode.slots()) {
+        // The shrink can make a child invocation of `enode` lose a slot as well (a class that contains
+        // itself, cascading redundancy). `enode` is not in its class right now, so nothing re-queues it:
+        // repeat until it covers all slots of its class. Each round strictly shrinks the class.
+        while !i.slots().is_subset(&enode.slots()) {
             self.handle_shrink_in_upwards_merge(src_id);
 
             enode = self.find_enode(&enode);
